@@ -1,5 +1,5 @@
 ------------------------------ MODULE MCCodec ------------------------------
-(* Generator for the typed encodings (C26).  The state is a small index record; Init holds one state
+(* Generator for the typed encodings (C26).  Init holds one state
    per (type, representative value) round trip and one per raw decoder input, Next derives from a
    round-trip state its variant with trailing bytes, every truncation and every single-byte
    corruption of the encoding.  The always-true invariant Emit prints, for every state, the scenario
@@ -35,8 +35,6 @@ Types == <<
 >>
 NT == Len(Types)
 
-AllReps == [ti \in 1..NT |-> Reps(Types[ti])]
-AllEnc  == [ti \in 1..NT |-> [vi \in 1..Len(AllReps[ti]) |-> Encode(Types[ti], AllReps[ti][vi])]]
 
 CorruptBytes == {0, 1, 2, 127, 128, 192, 255}
 Trailer == <<170, 1>>
@@ -95,26 +93,28 @@ RawCases ==
 (***************************************************************************)
 (* State machine                                                           *)
 (***************************************************************************)
-Init == \/ \E ti \in 1..NT : \E vi \in 1..Len(AllReps[ti]) :
-              c = [m |-> "rt", ti |-> ti, vi |-> vi, p |-> 0, b |-> 0, tr |-> 0]
-        \/ \E k \in 1..Len(RawCases) : c = [m |-> "raw", ti |-> 0, vi |-> k, p |-> 0, b |-> 0, tr |-> 0]
+\* The state carries the value and its encoding (TLC evaluates function constructors lazily and would
+\* otherwise rebuild the representatives of a type at every use).  v is kept for round trips only.
+Init == \/ \E ti \in 1..NT : \E vi \in 1..Len(Reps(Types[ti])) :
+              LET v == Reps(Types[ti])[vi] IN
+              c = [m |-> "rt", ti |-> ti, vi |-> vi, v |-> v, enc |-> Encode(Types[ti], v), p |-> 0, b |-> 0, tr |-> 0]
+        \/ \E k \in 1..Len(RawCases) :
+              c = [m |-> "raw", ti |-> 0, vi |-> k, v |-> <<>>, enc |-> RawCases[k].input, p |-> 0, b |-> 0, tr |-> 0]
 
 Next == /\ c.m = "rt" /\ c.tr = 0
-        /\ LET enc == AllEnc[c.ti][c.vi] IN
-           \/ c' = [c EXCEPT !.tr = 1]
-           \/ \E j \in TruncLens(enc) : c' = [c EXCEPT !.m = "trunc", !.p = j]
-           \/ \E j \in MutPos(enc), b \in CorruptBytes, tr \in (IF CorruptWithTrailer THEN {0, 1} ELSE {0}) :
-                 b # enc[j] /\ c' = [c EXCEPT !.m = "corrupt", !.p = j, !.b = b, !.tr = tr]
+        /\ \/ c' = [c EXCEPT !.tr = 1]
+           \/ \E j \in TruncLens(c.enc) : c' = [c EXCEPT !.m = "trunc", !.p = j, !.v = <<>>]
+           \/ \E j \in MutPos(c.enc), b \in CorruptBytes, tr \in (IF CorruptWithTrailer THEN {0, 1} ELSE {0}) :
+                 b # c.enc[j] /\ c' = [c EXCEPT !.m = "corrupt", !.p = j, !.b = b, !.tr = tr, !.v = <<>>]
 Spec == Init /\ [][Next]_c
 
 TypeOf(s)  == IF s.m = "raw" THEN RawCases[s.vi].ty ELSE Types[s.ti]
 InputOf(s) ==
-  IF s.m = "raw" THEN RawCases[s.vi].input
-  ELSE LET enc  == AllEnc[s.ti][s.vi]
-           tail == IF s.tr = 1 THEN Trailer ELSE <<>>
-       IN CASE s.m = "rt"      -> enc \o tail
-            [] s.m = "trunc"   -> SubSeq(enc, 1, s.p)
-            [] s.m = "corrupt" -> [enc EXCEPT ![s.p] = s.b] \o tail
+  LET tail == IF s.tr = 1 THEN Trailer ELSE <<>> IN
+  CASE s.m = "raw"     -> s.enc
+    [] s.m = "rt"      -> s.enc \o tail
+    [] s.m = "trunc"   -> SubSeq(s.enc, 1, s.p)
+    [] s.m = "corrupt" -> [s.enc EXCEPT ![s.p] = s.b] \o tail
 
 FlSeq(fl) == (IF "big" \in fl THEN <<"big">> ELSE <<>>) \o (IF "short" \in fl THEN <<"short">> ELSE <<>>)
              \o (IF "dup" \in fl THEN <<"dup">> ELSE <<>>)
@@ -123,11 +123,11 @@ Scenario(s) ==
   LET ty == TypeOf(s)
       rt == s.m = "rt"
       vd == Verdict(ty, InputOf(s))
-      enc == IF rt THEN AllEnc[s.ti][s.vi] ELSE <<>>
+      enc == IF rt THEN s.enc ELSE <<>>
   IN [ty |-> ty, kind |-> s.m,
       cls |-> IF rt THEN "own-encoding" ELSE IF "big" \in vd.fl THEN "length-prefix>=2^20"
               ELSE IF "short" \in vd.fl THEN "length-prefix>input" ELSE s.m,
-      v |-> IF rt THEN AllReps[s.ti][s.vi] ELSE <<>>, enc |-> enc,
+      v |-> IF rt THEN s.v ELSE <<>>, enc |-> enc,
       hint |-> IF rt /\ ty[1] = "usize" THEN Len(enc) ELSE -1,
       input |-> InputOf(s),
       exp |-> [t |-> vd.t, n |-> vd.n, val |-> vd.val, kinds |-> vd.kinds],
@@ -145,8 +145,8 @@ Laws ==
   LET ty == TypeOf(c)
       vd == Verdict(ty, InputOf(c))
   IN /\ c.m = "rt" => /\ vd.t = "ok"
-                      /\ vd.n = Len(AllEnc[c.ti][c.vi])           \* consumes exactly the encoding
-                      /\ vd.val = AllReps[c.ti][c.vi]             \* decodes to the same value
+                      /\ vd.n = Len(c.enc)                       \* consumes exactly the encoding
+                      /\ vd.val = c.v                            \* decodes to the same value
                       /\ vd.fl \subseteq {}
      /\ c.m = "trunc" => vd.t = "err" /\ vd.kinds[1] = "eof"     \* encodings are prefix-free
      /\ ty[1] = "string" => Utf8Law(InputOf(c))
